@@ -191,6 +191,170 @@ def bag(F, b):
     return ev
 
 
+MUT_POOL = {'push': 'APPEND', 'push_back': 'APPEND', 'push_str': 'APPEND', 'extend': 'APPEND', 'append': 'APPEND', 'write_fmt': 'APPEND', 'write_str': 'APPEND', 'write_char': 'APPEND',
+            'extend_from_slice': 'APPEND', 'push_front': 'PREPEND', 'insert': 'INSERT', 'remove': 'REMOVE', 'swap_remove': 'SWAP_REMOVE', 'clear': 'CLEAR', 'pop': 'POP',
+            'pop_front': 'POP_FRONT', 'pop_back': 'POP_BACK', 'pop_first': 'POP_FIRST', 'pop_last': 'POP_LAST', 'truncate': 'TRUNCATE', 'retain': 'RETAIN', 'drain': 'DRAIN',
+            'reverse': 'REVERSE', 'sort': 'SORT', 'sort_by': 'SORT', 'sort_by_key': 'SORT', 'sort_unstable': 'SORT_U', 'sort_unstable_by': 'SORT_U', 'sort_unstable_by_key': 'SORT_U',
+            'swap': 'SWAP', 'take': 'TAKE', 'replace': 'REPLACE', 'dedup': 'DEDUP', 'dedup_by_key': 'DEDUP', 'split_off': 'SPLIT_OFF', 'rotate_left': 'ROTATE', 'rotate_right': 'ROTATE'}
+SIG_TRANSPARENT = {'unwrap', 'expect', 'branch', 'clone', 'deref', 'deref_mut', 'into_iter', 'as_ref', 'as_mut', 'borrow_', 'ok_or', 'ok_or_else', 'map_err', 'ok', 'cloned', 'copied',
+                   'from_residual', 'iter', 'iter_mut', 'to_owned', 'unwrap_or_default', 'into', 'from', 'as_slice', 'as_str', 'by_ref', 'peekable', 'enumerate'}
+
+
+def nsig(t, depth=0):
+    """argsig with Option/Result/iterator plumbing made transparent (used to compare what two differently styled copies operate on)"""
+    from .core import unwrap_payload
+    t = unwrap_payload(t)
+    if not isinstance(t, tuple) or not t:
+        return str(t)
+    if depth > 4:
+        return '~'
+    k = t[0]
+    if k == 'param':
+        return 'P%d' % t[1]
+    if k == 'f':
+        return '%s.%s' % (nsig(t[1], depth + 1), t[2])
+    if k == 'call':
+        nm = normname(t[1]).split('::')[-1].rstrip('>')
+        nm = ACQ_NORM.get(nm, nm)
+        if nm in SIG_TRANSPARENT and t[2]:
+            return nsig(t[2][0], depth)
+        return '%s(%s)' % (nm, ','.join(nsig(a, depth + 1) for a in t[2]))
+    if k == 'aggr':
+        nm = normname(t[1]).split('::')[-1]
+        if nm in ('Some', 'Ok') and len(t[2]) == 1:
+            return nsig(t[2][0], depth)
+        return '%s{%s}' % (nm, ','.join(nsig(a, depth + 1) for a in t[2]))
+    if k == 'const':
+        return str(t[1])
+    if k == 'join':
+        return '|'.join(sorted(set(nsig(a, depth + 1) for a in t[1])))
+    if k in ('binop', 'unop'):
+        return '%s(%s)' % (t[1], ','.join(nsig(a, depth + 1) for a in (t[2] if k == 'binop' else (t[2],))))
+    if k == 'discr':
+        return 'discr(%s)' % nsig(t[1], depth + 1)
+    if k == 'v':
+        return nsig(t[1], depth)
+    if k == 'fn':
+        return 'fn'
+    return k
+
+
+def _is_accessor(F, nn_raw):
+    last = nn_raw.split('::')[-1].rstrip('>')
+    return (F._summ is not None and nn_raw in F._summ) or last in ('key', 'value', 'upgrade', 'downgrade', 'source', 'target', 'clone', 'deref', 'deref_mut', 'borrow', 'as_ref',
+                                                                    'into_iter', 'default', 'call', 'call_mut', 'call_once', 'into', 'from', 'to_string', 'fmt', 'hash')
+
+
+def sem_bag(F, b, seen=None, env=None, owner_public=None):
+    """style-independent summary of a function's *effects on state it does not own*: mutating std operations (pooled by kind, literal
+    arguments kept) whose receiver is reached from a parameter, crate-level callees that themselves have such effects (by name), and
+    crate aggregates -- closures merged, presence not multiplicity (a site count is a matter of style)"""
+    top = seen is None
+    seen = seen if seen is not None else set()
+    ev = set()
+    if b['q'] in seen:
+        return ev
+    seen.add(b['q'])
+    cfg, pv = F.cfg(b), F.prov(b)
+    R = cfg.can_return()
+    iter_adts = {im['self_q'] for im in F.impls if im['trait'] == 'std::iter::Iterator'}
+    if b['kind'] == 'Closure':
+        pub_ = bool(owner_public)
+    else:
+        fdef_ = F.fns.get(b['q'])
+        pub_ = fdef_ is not None and (fdef_.get('vis') == 'Public' or fdef_.get('reach'))
+
+    def _resolve(sig_):
+        # inside a closure `P1.k` is the k-th captured value
+        if b['kind'] == 'Closure':
+            m_ = re.match(r'^(acq(?:_mut)?\()?P1\.(\d+)(.*)$', sig_)
+            if m_ and env is not None and int(m_.group(2)) < len(env):
+                return (m_.group(1) or '') + env[int(m_.group(2))] + m_.group(3)
+            if re.match(r'^(acq(?:_mut)?\()?P\d', sig_):
+                return 'arg:' + sig_      # a closure's own arguments are not state of the enclosing function
+        return sig_
+    for bi, bb in enumerate(b['blocks']):
+        if bb['cleanup'] or bi not in R:
+            continue
+        for s in bb['stmts']:
+            if s['k'] != 'assign':
+                continue
+            rv = s['rv']
+            if rv['k'] == 'aggr' and rv['ak'].startswith('adt:'):
+                raw = rv['ak'][4:]
+                ak = normname(raw)
+                if not ak.startswith('F::') or raw.rsplit('::', 1)[0] in iter_adts or 'error::Error' in ak:
+                    continue
+                if len(rv['ops']) >= 2:
+                    ots = [strip_payload(pv.of_operand(o)) for o in rv['ops']]
+                    if all(isinstance(o, tuple) and len(o) == 3 and o[0] == 'f' and o[2] == str(i) for i, o in enumerate(ots)) and len({o[1] for o in ots}) == 1:
+                        continue
+                ev.add(('A', ak))
+            elif rv['k'] == 'aggr' and rv['ak'].startswith('closure:'):
+                cb = F.bodies.get(rv['ak'][len('closure:'):])
+                if cb is not None:
+                    # what the closure captures, in this function's terms (its environment is its parameter 1)
+                    caps = [_resolve(nsig(pv.of_operand(o))) for o in rv['ops']]
+                    ev |= sem_bag(F, cb, seen, caps, pub_)
+        t = bb['term']
+        if t['k'] != 'call':
+            continue
+        c = t['callee']
+        r = t.get('res', '')
+        name = r if (t.get('rk') == 'item' and r) else c
+        nn = normname(name)
+        last = nn.split('::')[-1].rstrip('>')
+        if t.get('local') and r in F.bodies:
+            if r not in seen:
+                sub = sem_bag(F, F.bodies[r], set(seen))
+                fdef = F.fns.get(r)
+                public = fdef is not None and (fdef.get('vis') == 'Public' or fdef.get('reach'))
+                if public:
+                    if any(e[0] == 'M' for e in sub):
+                        ev.add(('C', nn))
+                else:
+                    ev |= sub       # a private callee is part of this function: its name is nobody's business
+        elif (STD_ONLY.match(nn) or nn.startswith('std::string::')) and last in MUT_POOL and t['args']:
+            recv = _resolve(nsig(pv.of_operand(t['args'][0])))
+            # state the function does not own: self (and what it captures), and the parameters of a public function; the extra
+            # parameters of a private worker are its caller's locals
+            if re.match(r'^(P1\b|acq(_mut)?\(P1\b)', recv) or (pub_ and re.match(r'^(P\d+|acq(_mut)?\(P\d+)', recv)):
+                cst = tuple(str(pv.of_operand(a)[1]) for a in t['args'][1:] if a.get('k') == 'const')
+                ev.add(('M', MUT_POOL[last], cst))
+    return ev
+
+
+def flat_bag(F, b):
+    """the events of the strict bag without control context and nesting depth, plumbing dropped and argument provenance rendered
+    through nsig: equal flat bags = same operations on the same things, only the control structure around them differs"""
+    ev = collections.Counter()
+    cfg, pv = F.cfg(b), F.prov(b)
+    R = cfg.can_return()
+    for bi, bb in enumerate(b['blocks']):
+        if bb['cleanup'] or bi not in R:
+            continue
+        for s in bb['stmts']:
+            if s['k'] == 'assign' and s['rv']['k'] == 'aggr' and s['rv']['ak'].startswith('adt:'):
+                ak = normname(s['rv']['ak'][4:])
+                if ak.startswith('F::') and 'error::Error' not in ak:
+                    ev[('AGGR', ak, tuple(nsig(pv.of_operand(o)) for o in s['rv']['ops']))] += 1
+        t = bb['term']
+        if t['k'] != 'call':
+            continue
+        c = t['callee']
+        r = t.get('res', '')
+        if IGNORE.match(c) or (r and IGNORE.match(r)):
+            continue
+        name = r if (t.get('rk') == 'item' and r) else c
+        nn = normname(name)
+        if PLUMBING.match(nn) or nn.split('::')[-1].rstrip('>') in SIG_TRANSPARENT:
+            continue
+        if not (t.get('local') or t.get('rk') in ('unresolved', 'virtual', 'indirect') or ALPHABET.match(nn)):
+            continue
+        ev[('CALL', 'INDIRECT' if t.get('rk') == 'indirect' else nn, tuple(nsig(pv.of_operand(a)) for a in t['args']))] += 1
+    return ev
+
+
 def pairs(F):
     """(plain body, sync body) for every q present in both flavours of a pair; plus unpaired lists"""
     out, only_plain, only_sync = [], [], []
@@ -224,6 +388,15 @@ IDIOM_OPS = {'contains', 'contains_key', 'get', 'len', 'is_empty', 'iter', 'into
 
 
 ITER_PLUMBING = {'iter', 'into_iter', 'next', 'map', 'cloned', 'copied', 'collect', 'enumerate', 'sum', 'for_each', 'by_ref', 'values', 'keys', 'as_ref', 'len', 'with_capacity', 'new'}
+
+
+def shape_differs(ea, es):
+    def shape(bag_):
+        c_ = collections.Counter()
+        for (k_, n_, d_, cx_, sg_), cnt in bag_.items():
+            c_[(k_, n_, d_, cx_)] += cnt
+        return c_
+    return shape(ea) != shape(es)
 
 
 def cdiff_has_semantic(ea, es):
@@ -341,6 +514,12 @@ def sib(ctx):
         if ea == es:
             ok = True
             why = '%d events agree' % sum(ea.values())
+            if pa['kind'] != 'Closure':
+                sa_, ss_ = sem_bag(F, pa), sem_bag(F, sy)
+                if sa_ != ss_:
+                    ok = False
+                    why = 'effects differ -- plain-only: %s | sync-only: %s' % ('; '.join(' '.join(str(x) for x in k) for k in sorted(sa_ - ss_)[:4]),
+                                                                                 '; '.join(' '.join(str(x) for x in k) for k in sorted(ss_ - sa_)[:4]))
         else:
             ok = False
             d1, d2 = ea - es, es - ea
@@ -354,12 +533,27 @@ def sib(ctx):
             idiom_only = all((k == 'CALL' and STD_ONLY.match(n) and n.split('::')[-1].rstrip('>') in IDIOM_OPS) or (k == 'AGGR' and n.startswith('std::ops::Range')) for k, n in cdiff)
             # pure iteration plumbing (a loop written as an iterator chain or the other way round) is harmless in any function
             plumbing_only = all(k == 'CALL' and STD_ONLY.match(n) and n.split('::')[-1].rstrip('>') in ITER_PLUMBING for k, n in cdiff)
-            if cdiff and plumbing_only and not cdiff_has_semantic(ea, es):
+            # whatever the style, the two copies must have the same effects (closures merged)
+            sa_, ss_ = sem_bag(F, F.bodies.get(owner_a, pa)), sem_bag(F, F.bodies.get(owner_s, sy))
+            if sa_ != ss_:
+                why = 'effects differ -- plain-only: %s | sync-only: %s' % ('; '.join(' '.join(str(x) for x in k) for k in sorted(sa_ - ss_)[:4]),
+                                                                             '; '.join(' '.join(str(x) for x in k) for k in sorted(ss_ - sa_)[:4]))
+                out.append(Obl('SIB', unflav(pa['q']).replace('F::', '%s|%s::' % (F.flavour(pa), F.flavour(sy)), 1), sy['span'], 'same program up to Rc/Arc, RefCell/RwLock', False, why))
+                continue
+            if cdiff and plumbing_only and not cdiff_has_semantic(ea, es) and shape_differs(ea, es):
                 tolerated.append('%s (iteration plumbing only)' % sy['q'])
                 out.append(Obl('SIB', unflav(pa['q']).replace('F::', '%s|%s::' % (F.flavour(pa), F.flavour(sy)), 1), sy['span'], 'same program up to Rc/Arc, RefCell/RwLock', True,
                                'loop vs iterator-chain form only (%s); same crate-level operations and constants' % (', '.join(sorted(n.split('::')[-1] for k, n in cdiff)) or 'shape')))
                 continue
-            if idiom_only:
+            # same shape, different operands (the bags agree once the argument provenance is projected out) is never an idiom
+            def shape(bag_):
+                c_ = collections.Counter()
+                for (k_, n_, d_, cx_, sg_), cnt in bag_.items():
+                    c_[(k_, n_, d_, cx_)] += cnt
+                return c_
+            # (operands that are closures are excluded: what a closure captures changes when a helper is extracted around it)
+            operands_only = shape(ea) == shape(es) and any(not any('{closure' in str(x) for x in k_[4]) for k_ in list(d1) + list(d2))
+            if idiom_only and not operands_only:
                 cov = cov if cov is not None else rule_coverage(ctx)
                 ca, cs = cov.get(owner_a), cov.get(owner_s)
                 if ca and cs and ca[0] > 0 and cs[0] > 0 and ca[1] and cs[1]:
